@@ -736,6 +736,9 @@ func (db *Database) GetSuggestions(query string, maxSuggestions int) []string {
 	for word := range wordSet {
 		words = append(words, word)
 	}
+	// the fuzzy matcher ranks equally good matches in input order: fix that order, or the
+	// suggestions (and which of them fit under maxSuggestions) change from call to call
+	sort.Strings(words)
 
 	// Find fuzzy matches for the query
 	matches := fuzzyFind(query, words)
